@@ -805,7 +805,7 @@ def _strategy(tier, ki):
         dx = draw(st.sampled_from([0.0625, 0.1, 0.037]))
         if ("laplacian_filter" in e["gen"] or "ssprk3" in e["gen"]) and draw(st.integers(0, 3)) > 0:
             # closure-holding kernels: a small set of shapes so that one kernel object serves several cases
-            shape = draw(st.sampled_from([[3, 3, 3], [4, 6, 5], [7, 5, 6]]))
+            shape = draw(st.sampled_from([[3, 3, 3], [4, 6, 5], [7, 5, 6], [20, 4, 5], [35, 3, 4]]))
             threads = 2
         if "penalise_field_boundary" in e["gen"] and e["opts"]["width"] > 0 and tier == "quick":
             # grid-dependent constants are embedded in the C source (1.3 s of g++ per kernel): small palette
